@@ -27,9 +27,11 @@ import (
 	"path/filepath"
 	"regexp"
 	"runtime"
+	"runtime/debug"
 	"sort"
 	"strconv"
 	"strings"
+	"sync"
 	"syscall"
 	"time"
 
@@ -932,6 +934,7 @@ func init() {
 			"non-trivial = the last update made at least one system call on the config directory and old != new (or is a refused rename onto an existing login); distinct = (kind of the in-flight update, its arguments, pre-state listing)"
 		x.assume = []string{
 			"a kill lands between two system calls (a kill in the middle of one write(2) is not modelled); no power loss (page cache survives)",
+			"after every crash point the real stores are restarted on the crash state (hard links kept), complete further updates and are reloaded; one crash point per case goes through the start-up of the real server binary (built from the tree under test)",
 			"the materialised crash states apply the traced calls with POSIX semantics; in the thorough tier they are cross-checked by really killing the child (strace SIGKILL injection on syscall entry)",
 			"gopkg.in/yaml.v3 decode(encode(x)) = x on the stores' value types (exercised by every reload, not proved)",
 		}
@@ -1222,6 +1225,10 @@ func c20Case(c *Case, realKill bool) {
 	// (ii-b) life goes on after a crash: for EVERY crash point restart on the crash state (leftovers and hard links
 	// included), make further complete updates, restart again – see c20Recovery
 	if len(lastCalls) > 0 {
+		startupAt := r.Intn(len(lastCalls) + 1)
+		if len(lastCalls) >= 3 && r.Chance(70) {
+			startupAt = 1 + r.Intn(3) // while the temp file is being written
+		}
 		rs := c20NewSim(pre)
 		for k := 0; k <= len(lastCalls); k++ {
 			if k > 0 {
@@ -1235,6 +1242,32 @@ func c20Case(c *Case, realKill bool) {
 			os.RemoveAll(work)
 			if !ok {
 				return
+			}
+			if k == startupAt {
+				// the same crash state through the start-up path of the real server binary (main(): config, loaders, …)
+				sdir := filepath.Join(scratch, fmt.Sprintf("startup-%d", k), "config")
+				if err := rs.materialise(sdir); err != nil {
+					panic(err)
+				}
+				started, slog, serr := c20RealStartup(sdir)
+				if serr != "" {
+					c.Dist("real-startup/unavailable")
+					c.Note("real_startup_unavailable", serr)
+				} else {
+					c.Dist(fmt.Sprintf("real-startup/started=%v", started))
+					if !started {
+						c.Note("crash_point", k)
+						c.Note("server_log", clip(slog))
+						c.Violation("server-does-not-start-on-crash-state", fmt.Sprintf("the real server binary does not come up on the directory left by a kill after call %d of the update", k))
+						os.RemoveAll(filepath.Dir(sdir))
+						return
+					}
+					v := c20Judge(c, c20ReadDir(sdir), scratch, job.IPs, oldV, newV, store, k, "after the real server binary's start-up")
+					os.RemoveAll(filepath.Dir(sdir))
+					if v == "" {
+						return
+					}
+				}
 			}
 		}
 	}
@@ -1433,6 +1466,103 @@ func c20Recovery(c *Case, r *RNG, work string, last c20Update, store string, ips
 	}
 	c.Dist("recovery/" + store)
 	return true
+}
+
+// ---------------------------------------------------------------- the real server binary's start-up on a crash state
+
+var (
+	c20ServerOnce sync.Once
+	c20ServerBin  string
+	c20ServerErr  string
+)
+
+// c20Server builds cmd/mobius-hotline-server of the tree under test (the module this harness was built against) once per run.
+func c20Server() (string, string) {
+	c20ServerOnce.Do(func() {
+		repo := ""
+		if bi, ok := debug.ReadBuildInfo(); ok {
+			for _, d := range bi.Deps {
+				if d.Path == "github.com/jhalter/mobius" && d.Replace != nil {
+					repo = d.Replace.Path
+				}
+			}
+		}
+		if repo == "" {
+			c20ServerErr = "cannot locate the tree under test from the build info"
+			return
+		}
+		dir := filepath.Join("/var/tmp", "mobius-verif-c20-server-bin", sanitize(repo))
+		os.MkdirAll(dir, 0755)
+		bin := filepath.Join(dir, fmt.Sprintf("server-%d", os.Getpid()))
+		cmd := exec.Command("go", "build", "-o", bin, "./cmd/mobius-hotline-server")
+		cmd.Dir = repo
+		cmd.Env = append(os.Environ(), "GOFLAGS=-mod=readonly", "GOPROXY=off", "GOSUMDB=off", "GOTOOLCHAIN=local")
+		if out, err := cmd.CombinedOutput(); err != nil {
+			c20ServerErr = "go build of the server failed: " + clip(string(out))
+			return
+		}
+		// older binaries of finished runs
+		if ents, err := os.ReadDir(dir); err == nil {
+			for _, e := range ents {
+				if e.Name() != filepath.Base(bin) {
+					if fi, err := e.Info(); err == nil && time.Since(fi.ModTime()) > time.Hour {
+						os.Remove(filepath.Join(dir, e.Name()))
+					}
+				}
+			}
+		}
+		c20ServerBin = bin
+	})
+	return c20ServerBin, c20ServerErr
+}
+
+// c20RealStartup starts the REAL server binary on a materialised crash state (config dir completed with config.yaml,
+// banner, agreement, file root), waits until it reports that it is up (or exits), kills it, and returns: whatever the
+// start-up path of main() did to the directory is now in cfg.
+func c20RealStartup(cfg string) (started bool, log string, err string) {
+	bin, berr := c20Server()
+	if bin == "" {
+		return false, "", berr
+	}
+	os.MkdirAll(filepath.Join(cfg, "Files"), 0755)
+	os.WriteFile(filepath.Join(cfg, "banner.jpg"), []byte("JPEG"), 0644)
+	os.WriteFile(filepath.Join(cfg, "Agreement.txt"), []byte("agree"), 0644)
+	os.WriteFile(filepath.Join(cfg, "config.yaml"), []byte("Name: verif\nDescription: crash state\nBannerFile: banner.jpg\nFileRoot: Files\nEnableTrackerRegistration: false\nTrackers: []\nMaxDownloads: 0\nMaxDownloadsPerClient: 0\nMaxConnectionsPerIP: 0\nPreserveResourceForks: false\nIgnoreFiles: []\nEnableBonjour: false\n"), 0644)
+	logPath := cfg + ".server.log"
+	defer os.Remove(logPath)
+	port := 20000 + (int(time.Now().UnixNano()/1000)%20000)*2
+	cmd := exec.Command(bin, "-config", cfg, "-interface", "127.0.0.1", "-bind", strconv.Itoa(port), "-log-file", logPath, "-log-level", "info")
+	var outb bytes.Buffer
+	cmd.Stdout, cmd.Stderr = &outb, &outb
+	if e := cmd.Start(); e != nil {
+		return false, "", "cannot start the server binary: " + e.Error()
+	}
+	done := make(chan struct{})
+	go func() { cmd.Wait(); close(done) }()
+	deadline := time.Now().Add(15 * time.Second)
+	for time.Now().Before(deadline) {
+		b, _ := os.ReadFile(logPath)
+		if strings.Contains(string(b), "Hotline server started") || strings.Contains(outb.String(), "Hotline server started") {
+			started = true
+			break
+		}
+		select {
+		case <-done:
+			deadline = time.Now()
+		case <-time.After(3 * time.Millisecond):
+		}
+	}
+	cmd.Process.Kill()
+	<-done
+	b, _ := os.ReadFile(logPath)
+	// the process may have exited right after coming up (its port was taken): what counts is that it got past the loaders
+	if strings.Contains(string(b), "Hotline server started") || strings.Contains(outb.String(), "Hotline server started") {
+		started = true
+	}
+	for _, f := range []string{"Files", "banner.jpg", "Agreement.txt", "config.yaml"} {
+		os.RemoveAll(filepath.Join(cfg, f))
+	}
+	return started, string(b) + outb.String(), ""
 }
 
 // ---------------------------------------------------------------- ack-implies-persisted
